@@ -231,7 +231,7 @@ fn programs() -> Vec<String> {
     let cmds = b"+-<>.,[]";
     let mut out = vec![String::new()];
     let mut cur: Vec<Vec<u8>> = vec![vec![]];
-    for _ in 0..5 {
+    for _ in 0..VERIF_PARAM_MAXLEN {
         let mut next = Vec::new();
         for p in &cur {
             for &c in cmds {
@@ -270,7 +270,7 @@ fn verif_n7_all() {
     for p in &ps {
         one::<u8>(p, &mut t, "u8");
         one::<u16>(p, &mut t, "u16");
-        if p.len() <= 4 || p.len() > 100 {
+        if p.len() <= VERIF_PARAM_MAXLEN - 1 || p.len() > 100 {
             one::<u64>(p, &mut t, "u64");
         }
     }
